@@ -323,7 +323,7 @@ pub fn run(ctx: &Ctx) {
     });
 
     // domination search
-    let dom_cases = ctx.tier.pick(200_000u32, 5_000_000u32);
+    let dom_cases = ctx.tier.pick(2_000_000u32, 20_000_000u32);
     ctx.random(
         "domination",
         &|| {
@@ -337,7 +337,7 @@ pub fn run(ctx: &Ctx) {
     );
 
     // random digests: full vector equals the model's
-    let rc = ctx.tier.pick(100_000u32, 2_000_000u32);
+    let rc = ctx.tier.pick(1_000_000u32, 10_000_000u32);
     ctx.random(
         "random_digests",
         &|| (gen::hash_id(), 0usize..4, any::<u64>()).prop_map(|(hash, wi, tag)| RandCase { hash, w: WS[wi], tag }).boxed(),
@@ -354,7 +354,7 @@ pub fn run(ctx: &Ctx) {
 
     // end to end: chain positions of released signatures
     let mut e2e: Vec<E2eCase> = Vec::new();
-    let reps = ctx.tier.pick(3u64, 40u64);
+    let reps = ctx.tier.pick(10u64, 80u64);
     for h in ALL_HASHES {
         for w in WS {
             for r in 0..reps {
